@@ -588,7 +588,10 @@ fn run_guarded_cases(stream: &str, args: &Args, f: impl Fn(usize) -> (Vec<S>, bo
                     .args([stream, "--seed", &args.seed.to_string(), "--from", &(i + 1).to_string(), "--n", &(end - i - 1).to_string()])
                     .status()
                     .map(|s| s.code().unwrap_or(1))
-                    .unwrap_or(1)
+                    .unwrap_or_else(|e| {
+                        eprintln!("c13: could not start the continuation process: {e}");
+                        1
+                    })
             } else {
                 0
             };
